@@ -83,6 +83,17 @@ def run(ctx):
         for _ in range(ctx.n(150, 1500)):
             pan = rnd_digits(rng, rng.randrange(13, 22))
             verdict(fmt, o.nibbles(rng.randbytes(8)), pan, rng.randbytes(8))
+        # every single-nibble substitution (all 16 values at all 16 positions) of a well-formed block of every length
+        for L in range(4, 13):
+            fillv = {0: 15, 2: 15, 4: 10}.get(fmt)
+            base = [CTRL[fmt], L] + [rng.randrange(10) for _ in range(L)] + [
+                (fillv if fillv is not None else rng.randrange(10, 16)) for _ in range(14 - L)]
+            pan = rnd_digits(rng, rng.randrange(13, 22))
+            tail = rng.randbytes(8)
+            for pos in range(16):
+                for val in range(16):
+                    if val != base[pos]:
+                        verdict(fmt, base[:pos] + [val] + base[pos + 1:], pan, tail)
         # right-size requirement and PAN validity
     for fn, args in (("decode_pinblock_iso_0", (b"\x04\x12\x34\xff\xff\xff\xff", "5555555551234567")),
                      ("decode_pinblock_iso_0", (bytes(9), "5555555551234567")),
@@ -122,6 +133,12 @@ def run(ctx):
         key = rng.randbytes(rng.choice((16, 24, 32)))
         p4 = rnd_digits(rng, rng.randrange(1, 20))
         q4 = rnd_digits(rng, rng.randrange(1, 20))
+        if rng.random() < 0.4 and len(p4) >= 13:
+            # the same digits with leading zeros moved to the end, or one leading zero dropped
+            z = rng.randrange(1, 4)
+            core_digits = "".join(rng.choice("123456789") for _ in range(len(p4) - z))
+            p4 = "0" * z + core_digits
+            q4 = rng.choice([core_digits + "0" * z, p4[1:], core_digits])
         if o.pan_field4_nibbles(p4) != o.pan_field4_nibbles(q4):
             r = call(pinblock.decipher_pinblock_iso_4, key, pinblock.encipher_pinblock_iso_4(key, pin, p4), q4)
             evals += 1
